@@ -508,6 +508,17 @@ func checkItem(f *xfails, step int, c xcase) {
 	}
 }
 
+// capAliases: the memory reachable through res (up to its capacity) overlaps the memory of src (up to its capacity):
+// a result that is "independent of the source buffer" must not be able to write into it by appending.
+func capAliases(res, src []byte) bool {
+	if cap(res) == 0 || cap(src) == 0 {
+		return false
+	}
+	r0 := uintptr(unsafe.Pointer(unsafe.SliceData(res)))
+	s0 := uintptr(unsafe.Pointer(unsafe.SliceData(src)))
+	return r0 < s0+uintptr(cap(src)) && s0 < r0+uintptr(cap(res))
+}
+
 // checkDecodeExact: src begins with the encoding of want (size bytes); C15 dictates the reply.
 func checkDecodeExact(f *xfails, step int, kind string, src []byte, newBuf bool, size int, want xval, what string) {
 	r := xUnmarshal(kind, src, newBuf)
@@ -525,6 +536,8 @@ func checkDecodeExact(f *xfails, step int, kind string, src []byte, newBuf bool,
 			scramble(src)
 			if !r.current().same(want) {
 				f.add(step, "verdict", what+": newBuf=true result changed when the source buffer was overwritten", nil, nil)
+			} else if kind == "bytes" && capAliases(r.val.b, src) {
+				f.add(step, "verdict", what+": newBuf=true result shares memory with the source buffer (an append to it writes into the source)", nil, nil)
 			}
 		}
 	}
@@ -895,7 +908,7 @@ func driveStream(tw *TraceWriter, rnd *rand.Rand, steps int) {
 				if newBuf && isBytesKind(x.kind) {
 					before := r.current()
 					scramble(src)
-					ev["indep"] = r.current().same(before)
+					ev["indep"] = r.current().same(before) && !(x.kind == "bytes" && capAliases(r.val.b, src))
 				}
 			} else {
 				ev["v"] = []int{}
@@ -1028,7 +1041,7 @@ func driveDecoders(tw *TraceWriter, rnd *rand.Rand, steps int) {
 				if newBuf {
 					before := r.current()
 					scramble(src)
-					ev["indep"] = r.current().same(before)
+					ev["indep"] = r.current().same(before) && !(kind == "bytes" && capAliases(r.val.b, backing))
 				}
 			}
 		}
@@ -1040,7 +1053,16 @@ func driveDecoders(tw *TraceWriter, rnd *rand.Rand, steps int) {
 // plus the in-place compaction idiom on short and long values: decode without copying, re-encode the aliasing
 // value closer to the front of the same buffer, decode again.
 func driveBigBodies(tw *TraceWriter, rnd *rand.Rand) {
-	lens := []int{1, 2, 3, 7, 8, 9, 100, 127, 128, 16383, 16384, 1<<21 - 1, 1 << 21, 1<<21 + 1, 3 << 20, 1<<22 - 1, 1 << 22}
+	// every length up to 600 (an internal scratch buffer or fast path may sit at any small size), around powers of two
+	// up to 64 KiB, and the megabyte range
+	var lens []int
+	for ln := 0; ln <= 600; ln++ {
+		lens = append(lens, ln)
+	}
+	for k := 10; k <= 16; k++ {
+		lens = append(lens, 1<<uint(k)-1, 1<<uint(k), 1<<uint(k)+1)
+	}
+	lens = append(lens, 16383, 16384, 1<<21-1, 1<<21, 1<<21+1, 3<<20, 1<<22-1, 1<<22)
 	for _, ln := range lens {
 		for _, asString := range []bool{false, true} {
 			body := make([]byte, ln)
